@@ -35,6 +35,11 @@ class Hooks:
 
     def func_attr(self, eng, st, fn, name, default):
         """getattr(func, name, default) on a function value"""
+        attrs = st.ghost.get("__func_attrs__", {}).get(id(fn), {})
+        if name in attrs:
+            return [("val", attrs[name], st)]
+        if name == "__name__" and hasattr(fn, "f"):
+            return [("val", fn.f.name, st)]
         return [("val", default, st)]
 
     def exc_attr(self, eng, st, ref, name):
@@ -74,6 +79,13 @@ class Hooks:
                 else:
                     out.append(("val", s2.alloc("list", {"__kind__": "glist", "len": stor["len"], "elem": v}), s2))
         return out
+
+    def on_binop(self, eng, st, node, a, b, result):
+        """called after every arithmetic binary operation (for provenance tracking such as 'this value went through a rounded division')"""
+        return None
+
+    def on_compare(self, eng, st, node, op, a, b):
+        return None
 
     def on_store(self, eng, st, ref, name, value):
         """called after every attribute store `ref.name = value` on a modelled object (for invariants that must hold at every single write)"""
